@@ -35,9 +35,11 @@
 (* SORTS  a term has a sample format f (a string of SampleFormats.tla) and *)
 (* the execution a channel count ch.  `add`'s second operand lives at      *)
 (* SignedOf(f), `mul`'s at FloatOf(f) (the associated types of Sample).    *)
-(* FRAMES are sequences of ch samples; an integer sample (formats of at    *)
-(* most 16 bits are used here) is a TLC integer, a float sample its IEEE   *)
-(* field record (Dyadic.tla).                                              *)
+(* FRAMES are sequences of ch samples; an integer sample of a format of at *)
+(* most 16 bits is a TLC integer, an integer sample of a WIDE format (more *)
+(* than 16 bits: i32, u32, i64, ...) is the record [n |-> 0|1, l |-> 15-   *)
+(* bit limbs] of its JSON encoding (TLC's integers end at 2^31), a float   *)
+(* sample its IEEE field record (Dyadic.tla).                              *)
 (* CONTEXT X = [ch |-> channels, srcs |-> <<[fmt, kind, xs], ...>>],       *)
 (* kind "frames": xs = frames;  kind "samples": xs = flat samples.         *)
 (* Nodes with sample-typed parameters (gen, genmut, offset, offsetpc,      *)
@@ -61,23 +63,32 @@ AmpI(f, v) == IF IsSigned(f) THEN v ELSE v - HalfI(f)
 FromAmpI(f, a) == IF IsSigned(f) THEN a ELSE a + HalfI(f)
 InRangeI(f, a) == a >= 0 - HalfI(f) /\ a <= HalfI(f) - 1      \* signed amplitude representable
 
-Box(f, v) == IF IsFloat(f) THEN v ELSE SFromInt(v)
-Unbox(f, x) == IF IsFloat(f) THEN x ELSE SToInt(x)
+\* wide integer formats: every operation is SampleFormats' (Big.tla limbs); the sample value
+\* carried around is the JSON form [n, l] of the signed Big integer (canonical: n = 0 for zero)
+IsWide(f) == ~IsFloat(f) /\ Bits(f) > 16
+WJ(x) == [n |-> IF x.neg THEN 1 ELSE 0, l |-> x.mag]
 
-EqS(f) == IF IsFloat(f) THEN FZeroF(0) ELSE FromAmpI(f, 0)
+Box(f, v) == IF IsFloat(f) THEN v ELSE IF IsWide(f) THEN SFromJson(v) ELSE SFromInt(v)
+Unbox(f, x) == IF IsFloat(f) THEN x ELSE IF IsWide(f) THEN WJ(x) ELSE SToInt(x)
+
+EqS(f) == IF IsFloat(f) THEN FZeroF(0) ELSE IF IsWide(f) THEN WJ(EquilI(f)) ELSE FromAmpI(f, 0)
 
 \* conversion (Sample::to_sample)
 SConv(s, d, v) ==
   IF s = d THEN v
-  ELSE IF ~IsFloat(s) /\ ~IsFloat(d)
+  ELSE IF ~IsFloat(s) /\ ~IsFloat(d) /\ ~IsWide(s) /\ ~IsWide(d)
     THEN FromAmpI(d, IF Bits(d) >= Bits(s) THEN AmpI(s, v) * Pow2Small(Bits(d) - Bits(s))
                                              ELSE AmpI(s, v) \div Pow2Small(Bits(s) - Bits(d)))
     ELSE Unbox(d, Conv(s, d, Box(s, v)))
 SConvDefined(s, d, v) == IsFloat(d) \/ ~IsFloat(s) \/ InUnitDomain(FmtOf(s), v)
 
 \* offset by a sample of the Signed format; scale by a sample of the Float format
-SAddAmp(f, v, a) == IF IsFloat(f) THEN FAdd(FmtOf(f), v, a) ELSE v + a
-SAddDefined(f, v, a) == IsFloat(f) \/ InRangeI(f, AmpI(f, v) + a)
+SAddAmp(f, v, a) == IF IsFloat(f) THEN FAdd(FmtOf(f), v, a)
+                    ELSE IF IsWide(f) THEN Unbox(f, AddAmp(f, Box(f, v), Box(SignedOf(f), a)))
+                    ELSE v + a
+SAddDefined(f, v, a) == IF IsFloat(f) THEN TRUE
+                        ELSE IF IsWide(f) THEN AddAmpDefined(f, Box(f, v), Box(SignedOf(f), a))
+                        ELSE InRangeI(f, AmpI(f, v) + a)
 SMulAmpLimb(f, v, g) == Unbox(f, MulAmp(f, Box(f, v), g))
 \* fast path for integer formats of <= 16 bits (Float format f32) and a gain that is a short dyadic
 \* M * 2^E with odd M < 256, -30 <= E <= 8: amplitude * M needs < 24 bits, so the f32 product is
@@ -103,10 +114,15 @@ SClip(f, v, th) ==
     THEN LET F == FmtOf(f) IN
          IF DLt(Dec(F, th), Dec(F, v)) THEN th
          ELSE IF DLt(Dec(F, v), DNeg(Dec(F, th))) THEN FNegF(th) ELSE v
+    ELSE IF IsWide(f)
+      THEN LET a == Amp(f, Box(f, v))  t == Box(SignedOf(f), th)
+           IN Unbox(f, FromAmp(f, IF SLt(t, a) THEN t ELSE IF SLt(a, SNeg(t)) THEN SNeg(t) ELSE a))
     ELSE LET a == AmpI(f, v) IN FromAmpI(f, IF a > th THEN th ELSE IF a < 0 - th THEN 0 - th ELSE a)
 
 \* the closure menu of `map` / `zip_map` (the harness knows the same names)
 SInv(f, v) == IF IsFloat(f) THEN FNegF(v)                       \* -x
+              ELSE IF IsWide(f)                                 \* !x
+                THEN Unbox(f, IF IsSigned(f) THEN SSub(SNeg(Box(f, v)), SFromInt(1)) ELSE SSub(MaxV(f), Box(f, v)))
               ELSE IF IsSigned(f) THEN 0 - v - 1                \* !x
               ELSE 2 * HalfI(f) - 1 - v                         \* !x
 
@@ -264,6 +280,13 @@ DenRange(X, t, f, n0, m) == [i \in 1..m |-> Den(X, t, f, n0 + i)]
 UeItems(X, t, f, n0) == DenRange(X, t, f, n0, UeCount(X, t, n0))   \* until_exhausted, lift
 TakeItems(X, t, f, n0, m) == DenRange(X, t, f, n0, m)              \* take(m)
 IlItems(X, t, f, n0) == Flat(UeItems(X, t, f, n0))           \* interleaved samples
+\* `Clone` of a consumer's iterator (or of the signal) taken after it has yielded k of its items:
+\* the clone and the original are the same stream at the same position -- each goes on to yield
+\* exactly the items after the k-th (for interleaved samples: the remaining channels of the frame
+\* the clone was taken in, then the remaining frames, in channel order), then None
+CloneTail(items, k) == SubSeq(items, MinI(k, Len(items)) + 1, Len(items))
+\* root frames an interleaved-sample stream has pulled once it has yielded k samples
+IlFramesFor(k, ch) == (k + ch - 1) \div ch
 
 ---------------------------------------------------------------------------
 (* LAYER 2: transcription of the `impl Signal` blocks *)
